@@ -20,6 +20,7 @@ import (
 // per-request behaviours
 const (
 	bNow   = 'n' // reply at once
+	bCR    = 'r' // reply at once, its data contains CR LF (the channel strips CR: under 1.1 the reply no longer de-chunks -- C02's open finding -- but it is still this call's reply)
 	bNever = 'x' // never reply
 	bEdge  = 'e' // reply released a swept offset after the call started, around the moment the call times out (either outcome is fine for that call)
 	bLateA = 'a' // reply released right after the call timed out (before the next request is written)
@@ -92,12 +93,15 @@ func scenario(s scn) sched.Scenario {
 				if s.big {
 					pad = "<pad>" + strings.Repeat("0123456789", 105) + "</pad>"
 				}
+				if i < len(s.hist) && s.hist[i] == bCR {
+					pad += "<t>x\r\ny\r\nz\r\n</t>"
+				}
 				reply := `<rpc-reply xmlns="` + dev.NSBase + `" message-id="` + req.ID + `"><data><n>` + strconv.Itoa(i) + `</n>` + pad + `</data></rpc-reply>`
 				if i >= len(s.hist) {
 					return reply, dev.ReplyNow
 				}
 				switch s.hist[i] {
-				case bNow:
+				case bNow, bCR:
 					return reply, dev.ReplyNow
 				case bNever:
 					return reply, dev.ReplyNever
@@ -190,6 +194,9 @@ func scenario(s scn) sched.Scenario {
 						e.Violate("c08:own-echo-returned-as-reply", "call %d (id %s, behaviour %c) returned the echo of the client's own bytes as its reply: %q", i, own, beh, c.result)
 						continue
 					}
+					if c.err == nil && beh == bCR && c.result == "" {
+						continue // handed over as this call's (undecodable) reply: not lost, not another call's
+					}
 					if c.err == nil {
 						m := midRe.FindStringSubmatch(c.result)
 						if m == nil {
@@ -206,11 +213,11 @@ func scenario(s scn) sched.Scenario {
 							e.Violate("c08:reply-returned-twice", "reply %s returned to calls %d and %d", m[1], k, i)
 						}
 						seen[m[1]] = i
-						if beh != bNow && beh != bEdge {
+						if beh != bNow && beh != bEdge && beh != bCR {
 							e.Violate("c08:late-reply-accepted", "call %d (behaviour %c) should have timed out, got %q", i, beh, c.result)
 						}
 					} else {
-						if beh == bNow {
+						if beh == bNow || beh == bCR {
 							prevB := byte('-')
 							if i > 0 && i-1 < len(s.hist) {
 								prevB = s.hist[i-1]
@@ -272,6 +279,14 @@ func scenarios(tier string) []sched.Scenario {
 					}
 					out = append(out, scenario(scn{h, echo, v, 0, sched.Bounds{Pre: pre, Env: 0}, 0, false}))
 				}
+			}
+		}
+	}
+	// replies whose data contains carriage returns, between ordinary ones
+	for _, h := range []string{"r", "nr", "rn", "nrn", "arn"} {
+		for _, echo := range []bool{false, true} {
+			for _, v := range []string{"1.0", "1.1"} {
+				out = append(out, scenario(scn{hist: h, echo: echo, version: v, b: sched.Bounds{Env: 0}}))
 			}
 		}
 	}
